@@ -1984,10 +1984,25 @@ def assume(t, assignment, conds=None):
             if info is not None and info[1]:
                 facts.append((info[0], info[1], v))
 
+    # x known to be complex already (np.iscomplexobj(x) assumed true): x.astype(complex) has the same value as x
+    cplx = set()
+    for k_, v_ in assignment.items():
+        if v_ and isinstance(k_, tuple):
+            pass
+    if conds:
+        for k_, v_ in assignment.items():
+            ca_ = conds[k_].single_atom() if k_ in conds else None
+            if v_ and ca_ is not None and ca_.kind == 'call' and ca_.args[0] == 'iscomplexobj' and len(ca_.args[1]) == 1:
+                cplx.add(ca_.args[1][0].key)
+
     def fn(a):
         tk = Term.of(a).key
         if tk in assignment:
             return TRUE if assignment[tk] else FALSE
+        if cplx and a.kind == 'call' and a.args[0] == 'astype' and len(a.args[1]) == 1 and a.args[1][0].key in cplx:
+            d_ = dict(a.args[2]).get('dtype')
+            if d_ is not None and d_.single_atom() is not None and 'complex' in str(d_.single_atom().args[0]):
+                return a.args[1][0]
         if facts and a.kind == 'call' and a.args[0] == 'isinstance':
             info = _isinstance_info(Term.of(a))
             if info is not None and info[1]:
